@@ -783,6 +783,155 @@ theorem le_iff_lt_or_eq (a b : Value) (h : SameOrderedKind a b) :
   rw [h1, h2, h4]
   cases o <;> rfl
 
+/-! ## `<=` and `>=`: a total preorder on every ordered kind, antisymmetric up to `=` -/
+
+/-- `a <= b` is true only between two values of one ordered kind (for times and date-times: with a position on the
+UTC line). -/
+theorem le_true_same_kind (a b : Value) (h : leV a b = .bool true) : SameOrderedKind a b := by
+  unfold leV at h
+  split at h
+  · exact .num ..
+  · exact .str ..
+  · exact .date ..
+  · rename_i x y
+    rw [optBool_true_iff] at h
+    unfold instantCompare? at h
+    cases hx : x.key <;> cases hy : y.key <;> simp [hx, hy] at h
+    exact .time _ _ _ _ hx hy
+  · rename_i x y
+    rw [optBool_true_iff] at h
+    unfold instantCompare? at h
+    cases hx : x.key <;> cases hy : y.key <;> simp [hx, hy] at h
+    exact .dateTime _ _ _ _ hx hy
+  · exact .dtDur ..
+  · exact .ymDur ..
+  · simp at h
+
+/-- `a < b` is true only between two values of one ordered kind. -/
+theorem lt_true_same_kind (a b : Value) (h : ltV a b = .bool true) : SameOrderedKind a b := by
+  unfold ltV at h
+  split at h
+  · exact .num ..
+  · exact .str ..
+  · exact .date ..
+  · rename_i x y
+    rw [optBool_true_iff] at h
+    unfold instantCompare? at h
+    cases hx : x.key <;> cases hy : y.key <;> simp [hx, hy] at h
+    exact .time _ _ _ _ hx hy
+  · rename_i x y
+    rw [optBool_true_iff] at h
+    unfold instantCompare? at h
+    cases hx : x.key <;> cases hy : y.key <;> simp [hx, hy] at h
+    exact .dateTime _ _ _ _ hx hy
+  · exact .dtDur ..
+  · exact .ymDur ..
+  · simp at h
+
+theorem dateLe_trans {y1 : Int} {m1 d1 : Nat} {y2 : Int} {m2 d2 : Nat} {y3 : Int} {m3 d3 : Nat}
+    (h1 : dateTupleCmp y1 m1 d1 y2 m2 d2 = .lt ∨ dateTupleCmp y1 m1 d1 y2 m2 d2 = .eq)
+    (h2 : dateTupleCmp y2 m2 d2 y3 m3 d3 = .lt ∨ dateTupleCmp y2 m2 d2 y3 m3 d3 = .eq) :
+    dateTupleCmp y1 m1 d1 y3 m3 d3 = .lt ∨ dateTupleCmp y1 m1 d1 y3 m3 d3 = .eq := by
+  have g1 : dateTupleCmp y1 m1 d1 y2 m2 d2 ≠ .gt := by rcases h1 with h | h <;> simp [h]
+  have g2 : dateTupleCmp y2 m2 d2 y3 m3 d3 ≠ .gt := by rcases h2 with h | h <;> simp [h]
+  have := dateTupleCmp_le_trans _ _ _ _ _ _ _ _ _ g1 g2
+  cases hc : dateTupleCmp y1 m1 d1 y3 m3 d3 <;> simp_all
+
+/-- Totality: of two values of one ordered kind one is `<=` the other. -/
+theorem le_total (a b : Value) (h : SameOrderedKind a b) : leV a b = .bool true ∨ leV b a = .bool true := by
+  obtain ⟨o, _, _, _, h4, h5⟩ := ordered_ops a b h
+  rw [le_ge_mirror b a, h4, h5]
+  cases o <;> simp
+
+/-- Reflexivity on every ordered kind. -/
+theorem le_refl (a : Value) (h : SameOrderedKind a a) : leV a a = .bool true := by
+  rcases le_total a a h with h | h <;> exact h
+
+/-- Antisymmetry up to `=`: `a <= b` and `b <= a` make `a = b` true — for ALL values (the premises hold only
+between values of one ordered kind). -/
+theorem le_antisymm (a b : Value) (h1 : leV a b = .bool true) (h2 : leV b a = .bool true) :
+    eqV a b = .bool true := by
+  obtain ⟨o, _, he, _, h4, h5⟩ := ordered_ops a b (le_true_same_kind a b h1)
+  rw [le_ge_mirror b a, h5] at h2
+  rw [h4] at h1
+  rw [he]
+  cases o <;> simp_all
+
+/-- and conversely `a = b` between two values of one ordered kind makes `a <= b` and `b <= a` true. -/
+theorem le_of_eq (a b : Value) (h : SameOrderedKind a b) (he : eqV a b = .bool true) :
+    leV a b = .bool true ∧ leV b a = .bool true := by
+  obtain ⟨o, _, he', _, h4, h5⟩ := ordered_ops a b h
+  rw [le_ge_mirror b a, h4, h5]
+  rw [he'] at he
+  cases o <;> simp_all
+
+/-- `<=` is transitive — on all values. -/
+theorem le_trans (a b c : Value) (h1 : leV a b = .bool true) (h2 : leV b c = .bool true) :
+    leV a c = .bool true := by
+  unfold leV at h1
+  split at h1
+  · unfold leV at h2; split at h2 <;> simp_all [leV]
+    exact Dec.cmp_le_trans _ _ _ h1 h2
+  · unfold leV at h2; split at h2 <;> simp_all [leV]
+    exact String.compare_le_trans _ _ _ h1 h2
+  · unfold leV at h2; split at h2 <;> simp_all [leV, datePartialCmp_eq]
+    exact dateLe_trans h1 h2
+  · unfold leV at h2; split at h2 <;> simp_all [leV]
+    rw [optBool_true_iff] at h1 h2 ⊢
+    exact instantLe_trans _ _ _ h1 h2
+  · unfold leV at h2; split at h2 <;> simp_all [leV]
+    rw [optBool_true_iff] at h1 h2 ⊢
+    exact instantLe_trans _ _ _ h1 h2
+  · unfold leV at h2; split at h2 <;> simp_all [leV]
+    omega
+  · unfold leV at h2; split at h2 <;> simp_all [leV]
+    omega
+  · simp at h1
+
+/-- `>=` is transitive — on all values. -/
+theorem ge_trans (a b c : Value) (h1 : geV a b = .bool true) (h2 : geV b c = .bool true) :
+    geV a c = .bool true := by
+  rw [← le_ge_mirror] at *
+  exact le_trans c b a h2 h1
+
+/-- `<` and `<=` compose: `a < b` and `b <= c` make `a < c` true (and likewise `a <= b`, `b < c`). -/
+theorem lt_of_lt_of_le (a b c : Value) (h1 : ltV a b = .bool true) (h2 : leV b c = .bool true) :
+    ltV a c = .bool true := by
+  have hbc := le_true_same_kind b c h2
+  obtain ⟨o, hlt, heq, _, hle, _⟩ := ordered_ops b c hbc
+  rw [hle] at h2
+  cases o with
+  | lt => exact lt_trans a b c h1 (by rw [hlt]; rfl)
+  | gt => simp at h2
+  | eq =>
+    -- b = c: `a <= c` by transitivity, and `c <= a` would give `b <= a`, against `a < b`
+    have hab : SameOrderedKind a b := lt_true_same_kind a b h1
+    obtain ⟨o1, hlt1, _, _, hle1, hge1⟩ := ordered_ops a b hab
+    rw [hlt1] at h1
+    have ho1 : o1 = .lt := by cases o1 <;> simp_all
+    subst ho1
+    have hleab : leV a b = .bool true := by rw [hle1]; rfl
+    have hlebc : leV b c = .bool true := by rw [hle]; rfl
+    have hac := le_trans a b c hleab hlebc
+    have hkac := le_true_same_kind a c hac
+    obtain ⟨o2, hlt2, _, _, hle2, hge2⟩ := ordered_ops a c hkac
+    rw [hlt2]
+    cases o2 with
+    | lt => rfl
+    | gt => rw [hle2] at hac; simp at hac
+    | eq =>
+      -- a = c would give c <= a, hence b <= a
+      have hca : leV c a = .bool true := by rw [le_ge_mirror c a, hge2]; rfl
+      have hba := le_trans b c a hlebc hca
+      rw [le_ge_mirror b a, hge1] at hba
+      simp at hba
+
+example : leV (.num ⟨false, 10, -1⟩) (.num ⟨false, 1, 0⟩) = .bool true ∧ leV (.num ⟨false, 1, 0⟩) (.num ⟨false, 10, -1⟩) = .bool true ∧
+    eqV (.num ⟨false, 10, -1⟩) (.num ⟨false, 1, 0⟩) = .bool true := ⟨rfl, rfl, rfl⟩
+
+example : ltV (.num ⟨false, 1, 0⟩) (.num ⟨false, 15, -1⟩) = .bool true ∧
+    leV (.num ⟨false, 15, -1⟩) (.num ⟨false, 150, -2⟩) = .bool true := ⟨rfl, rfl⟩
+
 /-! ## between / in / conjunction -/
 
 /-- `x in <a..b>` with brackets `lc`, `rc` is the conjunction of the two comparisons, a closed
